@@ -184,6 +184,92 @@ theorem writeAvpsL_inside (w : Bytes) (as : List AVP) (out : Bytes) (log : OwLog
         · have := hia p hp; omega
         · have := hib p hp; omega
 
+/-- where the AVPs of a list start when the first is written at absolute offset `pos` -/
+def avpStarts : Nat → List AVP → OwLog
+  | _, [] => []
+  | pos, a :: as => (pos, 2) :: avpStarts (pos + (6 + a.value.length)) as
+
+theorem writeAvpL_exact (w : Bytes) (a : AVP) (out : Bytes) (log : OwLog) (h : writeAvpL w a = .ok (out, log)) :
+    out = w ++ avpImage a ∧ log = [(w.length, 2)] ∧ 6 + a.value.length ≤ 1023 := by
+  have he := writeAvpL_erase w a
+  rw [h] at he
+  simp only [Except.map] at he
+  by_cases hl : 6 + a.value.length ≤ 1023
+  · refine ⟨?_, ?_, hl⟩
+    · rw [writeAvp_eq w a hl] at he; cases he; rfl
+    · unfold writeAvpL at h
+      have hlen : (w ++ [0, 0] ++ be16 0 ++ a.payload).length - w.length = 6 + a.value.length := by
+        simp [payload_length]; omega
+      simp only [hlen, makeFlagsAndLength, if_pos hl] at h
+      have e : w ++ [0, 0] ++ be16 0 ++ a.payload = w ++ 0 :: 0 :: (be16 0 ++ a.payload) := by simp
+      rw [e, writeAt_patch] at h
+      simp only [Except.ok.injEq, Prod.mk.injEq] at h
+      obtain ⟨_, rfl⟩ := h
+      rfl
+  · rw [writeAvp_oversize w a (by omega)] at he; cases he
+
+/-- **Each overwrite belongs to its own AVP.**  When a list of AVPs is written behind `w`, the log is exactly one
+    two-octet overwrite per AVP, at the first octet that AVP appended — so it lies inside that AVP's own image
+    (`start .. start + 6 + |value|`), never in a neighbour's, never in what the writer held before. -/
+theorem writeAvpsL_log_exact (w : Bytes) (as : List AVP) (out : Bytes) (log : OwLog)
+    (h : writeAvpsL w as = .ok (out, log)) : out = w ++ avpsImage as ∧ log = avpStarts w.length as := by
+  induction as generalizing w out log with
+  | nil =>
+    simp only [writeAvpsL, Except.ok.injEq, Prod.mk.injEq] at h
+    obtain ⟨rfl, rfl⟩ := h
+    simp [avpsImage, avpStarts]
+  | cons a as ih =>
+    simp only [writeAvpsL] at h
+    cases h1 : writeAvpL w a with
+    | error f => rw [h1] at h; cases h
+    | ok q =>
+      obtain ⟨w', l⟩ := q
+      rw [h1] at h
+      simp only [] at h
+      cases h2 : writeAvpsL w' as with
+      | error f => rw [h2] at h; cases h
+      | ok q2 =>
+        obtain ⟨w'', l'⟩ := q2
+        rw [h2] at h
+        simp only [Except.ok.injEq, Prod.mk.injEq] at h
+        obtain ⟨rfl, rfl⟩ := h
+        obtain ⟨e1, e2, _⟩ := writeAvpL_exact w a w' l h1
+        obtain ⟨e3, e4⟩ := ih w' w'' l' h2
+        subst e1 e2
+        refine ⟨by rw [e3]; simp [avpsImage], ?_⟩
+        rw [e4]
+        simp [avpStarts, avpImage_length]
+
+/-- a run of messages into one writer fails exactly at the first message that does not encode on its own: the
+    messages before it have been appended (each as it encodes alone), nothing of the later ones has been looked at -/
+theorem writeMsgs_error (p : Bytes) (ms : List Msg) (f : Fault) (h : writeMsgs p ms = .error f) :
+    ∃ (done : List Msg) (m : Msg) (rest : List Msg) (imgs : List Bytes),
+      ms = done ++ m :: rest ∧ done.map encodeMsg = imgs.map Except.ok ∧ encodeMsg m = .error f := by
+  induction ms generalizing p with
+  | nil => simp [writeMsgs] at h
+  | cons m ms ih =>
+    simp only [writeMsgs] at h
+    cases hm : writeMsg p m with
+    | error g =>
+      rw [hm] at h
+      simp only [Except.error.injEq] at h
+      subst h
+      refine ⟨[], m, ms, [], rfl, rfl, ?_⟩
+      have := encodeInto_append p m
+      rw [hm] at this
+      cases he : encodeMsg m with
+      | ok i => rw [he] at this; simp [Except.map] at this
+      | error g' => rw [he] at this; simp only [Except.map, Except.error.injEq] at this; rw [this]
+    | ok w' =>
+      rw [hm] at h
+      obtain ⟨done, m', rest, imgs, e1, e2, e3⟩ := ih w' h
+      have := encodeInto_append p m
+      rw [hm] at this
+      cases he : encodeMsg m with
+      | error g' => rw [he] at this; simp [Except.map] at this
+      | ok i =>
+        exact ⟨m :: done, m', rest, i :: imgs, by rw [e1]; rfl, by simp [he, e2], e3⟩
+
 /-- Every positional overwrite the message encoder issues lies inside the value being encoded:
     at or after the first octet appended for it, and before the end of what it appended. -/
 theorem overwrites_inside (p : Bytes) (m : Msg) (out : Bytes) (log : OwLog) (h : writeMsgL p m = .ok (out, log)) :
